@@ -18,6 +18,7 @@ inductive SrvEv
   | data (b : Bytes)     -- bytes become readable
   | timeout              -- nothing happens for longer than the module's timeout
   | eof                  -- the server closed / reset the connection
+  | intr                 -- select() is interrupted by a signal (returns -1 / EINTR: the read gives up)
   deriving Repr, DecidableEq
 
 inductive ReadRes
@@ -32,6 +33,7 @@ def readN : Nat → List SrvEv → Bytes → ReadRes
   | _, [], acc => .short acc
   | _, .timeout :: _, _ => .timedOut
   | _, .eof :: _, acc => .short acc
+  | _, .intr :: _, _ => .timedOut        -- returns -1 instead of 0: equally "not the number of bytes asked for"
   | need, .data b :: rest, acc =>
     if need ≤ b.length then .full (acc ++ b.take need) (.data (b.drop need) :: rest)
     else readN (need - b.length) rest (acc ++ b)
@@ -41,6 +43,7 @@ def readRounds : Nat → List SrvEv → Nat
   | _, [] => 1
   | _, .timeout :: _ => 1
   | _, .eof :: _ => 1
+  | _, .intr :: _ => 1
   | need, .data b :: rest => if need ≤ b.length then 1 else 1 + readRounds (need - b.length) rest
 
 /-- `_whawty_recv_response` followed by the `strncmp("OK", response, 2)` test. -/
